@@ -235,7 +235,8 @@ section reach
 variable (B : KBlocks K V) (lt : K → K → Bool) (P : Params K) (tree : Tree K V) (progs : List (List (COp K V)))
   (hkp : KParams lt P) (ht : TreeOk none tree) (hord : OrdTree lt tree) (hsep : SepTree lt tree)
   (ho : tree.order = P.order) (hp : PadOk P) (hd : Disciplined progs)
-include B hkp ht hord hsep ho hp hd
+  (hdel : 4 ≤ tree.order ∨ NoDelete progs)
+include B hkp ht hord hsep ho hp hd hdel
 
 /-- **a `Scan` executed in a reachable step.**  On the tree `c'.tree` the step ends in (no
     operation started after the first stretch touches the tree), with `(leaf, i)` the cursor
@@ -256,7 +257,7 @@ theorem exec_scan (c c' : Config K V) (hr : Reachable (Config.init P tree progs)
         (∃ nx, startOp t s1 .scan =
             ({ s1 with cursor := some (some leaf, i + 1) }, .park (.want (.node nx) (.hop leaf nx))) ∧
           c'.tree.ahead leaf (i + 1) = c'.tree.ahead leaf i)) := by
-  obtain ⟨hinv, hw⟩ := reachable_cursorPosW B lt P tree progs hkp ht hord hsep ho hp hd c hr
+  obtain ⟨hinv, hw⟩ := reachable_cursorPosW B lt P tree progs hkp ht hord hsep ho hp hd hdel c hr
   obtain ⟨h', hT, hc, hcw⟩ := stepExec_inv B lt c c' t hstep hinv hw hx
   have hok' := h'.cinv.s.tree
   have hord' := h'.kinv.ord
@@ -295,7 +296,7 @@ theorem exec_pair (c c' : Config K V) (hr : Reachable (Config.init P tree progs)
     ∃ sh k v, c'.tree.look leaf = some sh ∧ startOp t s1 .pair = (s1, .done (.pair k v)) ∧
       sh.keys[i.toNat]? = some k ∧ sh.vals[i.toNat]? = some v ∧ (k, v) ∈ c'.tree.abs ∧
       Spec.lookup lt c'.tree.abs k = some v := by
-  obtain ⟨hinv, hw⟩ := reachable_cursorPosW B lt P tree progs hkp ht hord hsep ho hp hd c hr
+  obtain ⟨hinv, hw⟩ := reachable_cursorPosW B lt P tree progs hkp ht hord hsep ho hp hd hdel c hr
   obtain ⟨h', hT, hc, _⟩ := stepExec_inv B lt c c' t hstep hinv hw hx
   have hok' := h'.cinv.s.tree
   rw [hcur] at hc
@@ -323,7 +324,7 @@ theorem step_newScanner (c c' : Config K V) (hr : Reachable (Config.init P tree 
         some (some want, (startIndex c.P {} start lf : Int) - 1) ∧
       CurPos lt c'.tree (.ge start) want ((startIndex c.P {} start lf : Int) - 1) ∧
       c'.tree.ahead want ((startIndex c.P {} start lf : Int) - 1) = Spec.from lt c'.tree.abs start := by
-  obtain ⟨hinv, hw⟩ := reachable_cursorPosW B lt P tree progs hkp ht hord hsep ho hp hd c hr
+  obtain ⟨hinv, hw⟩ := reachable_cursorPosW B lt P tree progs hkp ht hord hsep ho hp hd hdel c hr
   have htm : th ∈ c.threads := List.mem_of_getElem? hth
   have hS := hinv.cinv.s
   have hkpos : KPos lt c.tree (.roNode true start hold want) := by
@@ -349,7 +350,7 @@ theorem step_hop (c c' : Config K V) (hr : Reachable (Config.init P tree progs) 
     ∃ i shn k v, th.cursor = some (some cur, i) ∧ (∃ b, CurPosW lt c.tree b cur i) ∧
       c'.tree.look next = some shn ∧ shn.height = 0 ∧ shn.keys[0]? = some k ∧ shn.vals[0]? = some v ∧
       c.tree.ahead cur i = (k, v) :: c'.tree.ahead next 0 ∧ CurPos lt c'.tree (.gt k) next 0 := by
-  obtain ⟨hinv, hw⟩ := reachable_cursorPosW B lt P tree progs hkp ht hord hsep ho hp hd c hr
+  obtain ⟨hinv, hw⟩ := reachable_cursorPosW B lt P tree progs hkp ht hord hsep ho hp hd hdel c hr
   have htm : th ∈ c.threads := List.mem_of_getElem? hth
   have hS := hinv.cinv.s
   have hko : KontOk c.tree (.hop cur next) := by
